@@ -29,6 +29,7 @@
 import Ark.Proofs.WInv
 import Ark.Proofs.SInv
 import Ark.Proofs.PoolHistory
+import Ark.Proofs.PreCheck
 
 set_option autoImplicit false
 
@@ -1959,7 +1960,7 @@ theorem opAdd_eq (run : ProbeRunner) (p : Path) (e : Ent) (ids : List Comp)
     opAdd run p e ids vals [] w = .ok () (writeValsW w' e vals) := by
   have hno2 : ∀ evt : Nat, (writeValsW w' e vals).obs.hasObservers evt = false := hno
   cases p <;>
-  simp [opAdd, preCheck, preCheckMap, preCheckTyped, M.forM', bind, M.bind, M.get, M.assert, ha,
+  simp [opAdd, preCheck_nil, bind, M.bind, M.get, M.assert, ha,
     hcore, writeVals_eq, fireAddIfHas_none, hno, hno2, pure, M.pure]
 
 /-- a panic of `World.add` is the panic of `Add` (same state) -/
@@ -1968,7 +1969,7 @@ theorem opAdd_panic (run : ProbeRunner) (p : Path) (e : Ent) (ids : List Comp)
     (hcore : addCore e ids [] w = .panic k w') :
     opAdd run p e ids vals [] w = .panic k w' := by
   cases p <;>
-  simp [opAdd, preCheck, preCheckMap, preCheckTyped, M.forM', bind, M.bind, M.get, M.assert, ha,
+  simp [opAdd, preCheck_nil, bind, M.bind, M.get, M.assert, ha,
     hcore, pure, M.pure]
 
 theorem opRemove_eq (run : ProbeRunner) (p : Path) (e : Ent) (ids : List Comp) (w : World)
